@@ -23,6 +23,8 @@
 #include <thread>
 #include <memory>
 #include <functional>
+#include <signal.h>
+#include <pthread.h>
 #include <sys/wait.h>
 #include <unistd.h>
 
@@ -354,7 +356,19 @@ bool run_once(const Scenario &sc, const std::function<int(size_t, unsigned)> &ch
   size_t nthreads = bodies.size();
   std::vector<std::thread> threads;
   bool deadlock = false;
-  if (!scheduled) {
+  if (!scheduled && sc.mode == "eintr") {
+    // consumers first; while they are blocked in sem_wait, interrupt them with a signal whose handler was
+    // installed WITHOUT SA_RESTART (sem_wait returns -1/EINTR); only then start the producers
+    size_t nprod = sc.kind == "usq" ? 1 : sc.list("prod").size();
+    threads.resize(nthreads);
+    for (size_t i = nprod; i < nthreads; ++i) threads[i] = std::thread(managed, (int)i, bodies[i]);
+    for (int round = 0; round < 4; ++round) {
+      usleep(20000);
+      for (size_t i = nprod; i < nthreads; ++i) pthread_kill(threads[i].native_handle(), SIGUSR1);
+    }
+    usleep(20000);
+    for (size_t i = 0; i < nprod; ++i) threads[i] = std::thread(managed, (int)i, bodies[i]);
+  } else if (!scheduled) {
     for (size_t i = 0; i < nthreads; ++i) threads.emplace_back(managed, (int)i, bodies[i]);
   } else {
     {
@@ -503,6 +517,21 @@ void run_scenario(const Scenario &sc) {
       if (verbose) std::cout << "x " << sched_text() << " | " << trace_text() << " | " << result << "\n";
       else std::cout << "x steps=" << G.trace.size() << " trace=" << fnv(trace_text()) << " | " << result << "\n";
       if (!ok) { dead = true; break; }
+    }
+  } else if (sc.mode == "eintr") {  // real threads; consumers blocked in sem_wait get EINTR
+    struct sigaction sa;
+    memset(&sa, 0, sizeof(sa));
+    sa.sa_handler = [](int) {};
+    sa.sa_flags = 0;   // no SA_RESTART
+    sigaction(SIGUSR1, &sa, 0);
+    long runs = sc.num("runs", 1);
+    for (long r = 0; r < runs; ++r) {
+      std::string result;
+      alarm(20);   // a consumer that lost an item waits forever
+      run_once(sc, [](size_t, unsigned) { return 0; }, result, false);
+      alarm(0);
+      ++count;
+      std::cout << "x eintr | " << result << "\n";
     }
   } else {  // free: no scheduler, real concurrency (TSan / stress)
     long runs = sc.num("runs", 1);
